@@ -523,9 +523,19 @@ func c09DroppedThenTampered(w *core.WorkerCtx, report []string) {
 		}
 		alter := []func(v *accountant.Vertex){
 			func(v *accountant.Vertex) { v.Transaction.Spice.Currency = 50 },
-			func(v *accountant.Vertex) { v.Transaction.ReceiverAddress = u[3].Addr; v.Transaction.Spice.Currency = 5 },
-			func(v *accountant.Vertex) { v.Transaction.Spice = spice.Melange{}; v.Transaction.Data = []byte("other data") },
-			func(v *accountant.Vertex) { v.Transaction.Spice.Currency = 50; v.LeftParentHash, v.RightParentHash = tip, tip; v.Weight = wgt + 1 },
+			func(v *accountant.Vertex) {
+				v.Transaction.ReceiverAddress = u[3].Addr
+				v.Transaction.Spice.Currency = 5
+			},
+			func(v *accountant.Vertex) {
+				v.Transaction.Spice = spice.Melange{}
+				v.Transaction.Data = []byte("other data")
+			},
+			func(v *accountant.Vertex) {
+				v.Transaction.Spice.Currency = 50
+				v.LeftParentHash, v.RightParentHash = tip, tip
+				v.Weight = wgt + 1
+			},
 		}
 		for ai, a := range alter {
 			c := *ledger.CloneVertex(&orig)
